@@ -201,9 +201,18 @@ def listenerAllowed (w : World) (gw : Gateway) (r : Route) (l : Listener) : Bool
   | none => false
   | some a => kindAllowed r a.kinds && nsAllowed w gw r a.nss
 
+/-- Two variants of the code are modelled, selected by `fx`:
+`fx = false`: the code as found — `syncTCPRouteGateway` never reads `listener.Protocol`;
+`fx = true`: the repaired code (/verif/.build/c10-fix-1.patch) — `syncTCPRouteGateway` skips a listener
+whose protocol is neither `TCP` nor `TLS`.  The driver picks the variant from the regenerated fact
+`c10TcpProtocolChecked`. -/
+def protoGuard (fx : Bool) (r : Route) (l : Listener) : Bool :=
+  !fx || !r.tcp || l.proto == "TCP" || l.proto == "TLS"
+
 /-- the decision of the code for one (route, parentRef, gateway, listener) -/
-def attaches (w : World) (r : Route) (pr : ParentRef) (gw : Gateway) (l : Listener) : Bool :=
-  resolveParent w r pr == some gw && gw.listeners.contains l && sectionOK pr l && listenerAllowed w gw r l
+def attaches (fx : Bool) (w : World) (r : Route) (pr : ParentRef) (gw : Gateway) (l : Listener) : Bool :=
+  resolveParent w r pr == some gw && gw.listeners.contains l && sectionOK pr l && protoGuard fx r l &&
+    listenerAllowed w gw r l
 
 /-! ## backends -/
 
@@ -225,7 +234,15 @@ def backendID (r : Route) (idx : Nat) : String :=
 def findSvc (w : World) (ns name : String) : Option Svc :=
   w.svcs.find? fun s => s.ns == ns && s.name == name
 
-def sortStr (l : List String) : List String := l.mergeSort fun a b => decide (a ≤ b)
+/-- insertion sort (structural recursion, so that closed examples evaluate in the kernel); the orders
+used are total, so the result is the one `sort.Slice` produces up to equal elements -/
+def insertBy {α} (le : α → α → Bool) (x : α) : List α → List α
+  | [] => [x]
+  | y :: ys => if le x y then x :: y :: ys else y :: insertBy le x ys
+
+def isort {α} (le : α → α → Bool) (l : List α) : List α := l.foldr (insertBy le) []
+
+def sortStr (l : List String) : List String := isort (fun a b => decide (a ≤ b)) l
 
 /-- one backendRef of `createBackend`: `none` = skipped (nil port, service not found, port not found);
 the service is always looked up in the ROUTE's namespace -/
@@ -335,16 +352,16 @@ def rulesEvents (w : World) (r : Route) (l : Listener) : List Ev :=
     | some b => ruleEvents r l ri.1 b
 
 /-- `syncHTTPRouteGateway` / `syncTCPRouteGateway` -/
-def gatewayEvents (w : World) (r : Route) (pr : ParentRef) (gw : Gateway) : List Ev :=
+def gatewayEvents (fx : Bool) (w : World) (r : Route) (pr : ParentRef) (gw : Gateway) : List Ev :=
   gw.listeners.flatMap fun l =>
-    if sectionOK pr l && listenerAllowed w gw r l then rulesEvents w r l else []
+    if sectionOK pr l && protoGuard fx r l && listenerAllowed w gw r l then rulesEvents w r l else []
 
 /-- `syncRoute` -/
-def routeEvents (w : World) (r : Route) : List Ev :=
+def routeEvents (fx : Bool) (w : World) (r : Route) : List Ev :=
   r.parents.flatMap fun pr =>
     match resolveParent w r pr with
     | none => []
-    | some gw => gatewayEvents w r pr gw
+    | some gw => gatewayEvents fx w r pr gw
 
 def rkey (r : Route) : String := r.ns ++ "/" ++ r.name
 
@@ -352,12 +369,12 @@ def rkey (r : Route) : String := r.ns ++ "/" ++ r.name
 def routeLe (a b : Route) : Bool :=
   if a.ts = b.ts then decide (rkey a ≤ rkey b) else decide (a.ts < b.ts)
 
-def sortRoutes (rs : List Route) : List Route := rs.mergeSort routeLe
+def sortRoutes (rs : List Route) : List Route := isort routeLe rs
 
 /-- `Sync`: HTTPRoutes, then TCPRoutes -/
-def events (w : World) : List Ev :=
-  (sortRoutes (w.routes.filter fun r => !r.tcp)).flatMap (routeEvents w) ++
-  (sortRoutes (w.routes.filter fun r => r.tcp)).flatMap (routeEvents w)
+def events (fx : Bool) (w : World) : List Ev :=
+  (sortRoutes (w.routes.filter fun r => !r.tcp)).flatMap (routeEvents fx w) ++
+  (sortRoutes (w.routes.filter fun r => r.tcp)).flatMap (routeEvents fx w)
 
 /-! ## the haproxy model: first declared wins -/
 
@@ -375,13 +392,13 @@ deriving Repr
 
 def pathKey (d : PathDecl) : String × Link := (d.host, d.link)
 
-def pathDecls (w : World) : List PathDecl := (events w).filterMap Ev.path?
-def tcpDecls (w : World) : List TcpDecl := (events w).filterMap Ev.tcp?
+def pathDecls (fx : Bool) (w : World) : List PathDecl := (events fx w).filterMap Ev.path?
+def tcpDecls (fx : Bool) (w : World) : List TcpDecl := (events fx w).filterMap Ev.tcp?
 
-def sync (w : World) : State :=
-  { backends := firsts (·.id) ((events w).map Ev.backend),
-    paths := firsts pathKey (pathDecls w),
-    tcps := firsts (·.port) (tcpDecls w) }
+def sync (fx : Bool) (w : World) : State :=
+  { backends := firsts (·.id) ((events fx w).map Ev.backend),
+    paths := firsts pathKey (pathDecls fx w),
+    tcps := firsts (·.port) (tcpDecls fx w) }
 
 /-! ## canonical text (what the harness prints for the real haproxy model) -/
 
@@ -402,7 +419,7 @@ def render (s : State) : String :=
   let hosts := hostnames.map fun h =>
     h ++ "{" ++ ",".intercalate (sortStr ((s.paths.filter (·.host = h)).map showPath)) ++ "}"
   joinOr (sortStr hosts) ++ "#" ++ joinOr (sortStr (s.backends.map showBackend)) ++ "#" ++
-    joinOr ((s.tcps.mergeSort natLe).map fun t => toString t.port ++ ">" ++ t.backend.id)
+    joinOr ((isort natLe s.tcps).map fun t => toString t.port ++ ">" ++ t.backend.id)
 
 /-! ## Spec: what the property demands (written from docs/…/gateway-api.md and the Gateway API
 semantics of `parentRefs` and `allowedRoutes`) -/
